@@ -94,16 +94,18 @@ Theorem C08_warning_alert_after_establishment :
 Proof. exact warning_alert_after_establishment. Qed.
 Print Assumptions C08_warning_alert_after_establishment.
 
-(* STILL OPEN, as coded: while a dual-stack endpoint is still negotiating the version the same warning alert
-   ends the handshake.  Witness replayed by the harness: 15fefd0000<seq>0002016e to a dual-stack client
-   before the server's first answer is delivered *)
-Theorem C08_warning_alert_negotiating_refuted :
-  forall (W : nat) (lease : bool) (s : rstate) (w : wire) (level desc : N),
-    r_closed s = false -> w_epoch w = 0 -> w_clear w = CAlert level desc -> is_warning (CAlert level desc) = true ->
-    check maxseq48 (get_win W 0 (r_wins s)) (w_seq w) = true ->
-    snd (recv_conn_neg W lease false true false s w) = [OMark 0 (w_seq w); OErr].
-Proof. exact warning_alert_negotiating_refuted. Qed.
-Print Assumptions C08_warning_alert_negotiating_refuted.
+(* ... and equally inert while a dual-stack endpoint is still negotiating the version.  (Regression corpus:
+   15fefd0000<seq>0002016e to a dual-stack client before the server's first answer; before abcaac6 it ended
+   the handshake.) *)
+Theorem C08_warning_alert_inert_during_negotiation :
+  forall (W : nat) (lease full est : bool) (s : rstate) (w : wire) (level desc : N),
+    w_epoch w = 0 -> w_clear w = CAlert level desc -> is_warning (CAlert level desc) = true ->
+    let r := recv_conn_neg W lease full true est s w in
+    (snd r = [] \/ snd r = [OMark 0 (w_seq w)]) /\
+    r_epoch (fst r) = r_epoch s /\ r_init (fst r) = r_init s /\ r_queue (fst r) = r_queue s /\
+    r_closed (fst r) = r_closed s /\ r_cid (fst r) = r_cid s.
+Proof. exact warning_alert_inert_during_negotiation. Qed.
+Print Assumptions C08_warning_alert_inert_during_negotiation.
 
 Theorem C08_recv_conn_is_recv :
   forall (W : nat) (lease : bool) (s : rstate) (w : wire), recv_conn W lease false true s w = recv W lease s w.
